@@ -13,6 +13,14 @@
 (* inside the range p = -V(minimum).  A run of the conformance driver must  *)
 (* discharge EVERY cell (a driver that silently stops sampling a region is  *)
 (* rejected), each with a digit class meeting its bound.                    *)
+(*                                                                          *)
+(* Histories: the tables of a Thermodynamics object can be rebuilt (the     *)
+(* phases traced again with another step, or after the potential's          *)
+(* parameters changed).  Retrace returns the automaton to its initial       *)
+(* state: the extrapolation coefficients belong to the old tables and every *)
+(* obligation has to be discharged again on the new ones -- "at every       *)
+(* temperature" holds for the object as it is now, not as it was when its   *)
+(* derivatives were first looked at.                                        *)
 (***************************************************************************)
 EXTENDS Integers, Sequences, FiniteSets, TLC
 
@@ -31,7 +39,9 @@ Bound(c) ==
     IF "inside" \in DOMAIN c THEN 6                        \* p = -V(min): closed form, relative to the field-dependent part
     ELSE IF "end" \in DOMAIN c THEN 6                      \* continuity across a range end
     ELSE IF c.what \in {"e", "w", "cs2"} THEN 12           \* algebraic identities among reported quantities
-    ELSE 5                                                 \* reported derivative vs derivative of reported function
+    ELSE 8                                                 \* reported derivative vs derivative of reported function (6th-order stencil
+                                                           \* inside one spline interval / one analytic region: measured 11; a table whose
+                                                           \* derivative splines belong to an earlier tracing of the same phase gives 5)
 
 NeedsExtrapolation(c) == ("region" \in DOMAIN c /\ c.region # "inside") \/ "end" \in DOMAIN c
 
@@ -52,14 +62,18 @@ Discharge(c, d) ==
     /\ worst' = IF d < worst THEN d ELSE worst
     /\ UNCHANGED extrap
 
-Next == SetExtrapolate \/ \E c \in Cells, d \in {5, 6, 8, 12, 16} : Discharge(c, d)
+Retrace == extrap' = FALSE /\ done' = {} /\ worst' = 16
+
+Next == SetExtrapolate \/ Retrace \/ \E c \in Cells, d \in {5, 6, 8, 12, 16} : Discharge(c, d)
 Spec == Init /\ [][Next]_vars
 
 Complete == done = Cells
+\* a rebuilt table invalidates everything known about the old one
+RetraceResets == [][(done' = {} /\ done # {}) => ~extrap']_vars
 OrderOK == (\E c \in done : NeedsExtrapolation(c)) => extrap
 RegionTotal == \A T \in 0..6 : Region(T, 2, 4) \in Regions
                  /\ (Region(T, 2, 4) = "inside" <=> (2 <= T /\ T <= 4))
-Monotone == [][done \subseteq done']_vars
+Monotone == [][done \subseteq done' \/ (done' = {} /\ ~extrap')]_vars
 \* the exhaustive run explores all orders of discharging up to 4 cells (2^48 subsets otherwise)
 Small == Cardinality(done) <= 3
 =============================================================================
